@@ -179,6 +179,10 @@ def run(ctx):
     mark("limit+limtok")
     # ---- end to end
     e2e = T.htable(["-mode", "e2e12", "-n", 100 * mult, "-seed", seed])
+    if ctx.tier == "thorough":
+        # exhaustive small scope: every key list of length <= 2 x every direction x every limit none, 0..N+1 over four graphs
+        e2e += T.htable(["-mode", "grid12"])
+        ctx.cov["exhaustive"] = "ORDER BY key lists of length <= 2 over 2 outputs x directions x limits none,0..N+1 x 4 fixed graphs"
     ecodes = T.coq_verdicts(ctx, "c12_e2e", [e2e_item(c) for c in e2e], shard=300)
     bad_outcomes = 0
     for c, v in zip(e2e, ecodes):
